@@ -8,5 +8,5 @@ CONSTANTS
   LzsW <- W
   LzsStart <- Start
   MergeAt <- SmallMerge
-INVARIANTS SameOutput OneChunkPerCommand SameRing
+INVARIANTS Agree
 CHECK_DEADLOCK FALSE
